@@ -166,7 +166,10 @@ func replayStmts(args []string) {
 		switch c.prop {
 		case "C13":
 			for _, mode := range []string{"row", "batch"} {
-				for _, bs := range []int{2, 32} {
+				for _, bs := range []int{1, 2, 32} {
+					if bs == 1 && sc.Stmt != nil && sc.Stmt.Kind == "select" {
+						continue // batch size 1 only for the mutating statements (multi-key writes split into several calls)
+					}
 					base := runStoreCase(fmt.Sprintf("%s#%s%d-f0", sc.ID, mode, bs), sc.Stmt, sc.Raw, sc.Store, RunOpts{Mode: mode, BSize: bs, Cache: true})
 					out.Stats.Evaluations++
 					out.Trace("store", base)
@@ -178,7 +181,7 @@ func replayStmts(args []string) {
 						}
 					}
 					for i := 1; i <= n; i++ {
-						tr := runStoreCase(fmt.Sprintf("%s#%s%d-f%d", sc.ID, mode, bs, i), sc.Stmt, sc.Raw, sc.Store, RunOpts{Mode: mode, BSize: bs, Cache: true, FaultAt: i})
+						tr := runStoreCase(fmt.Sprintf("%s#%s%d-f%d", sc.ID, mode, bs, i), sc.Stmt, sc.Raw, sc.Store, RunOpts{Mode: mode, BSize: bs, Cache: true, FaultAt: i, PollsAfterFail: 2})
 						out.Stats.Evaluations++
 						out.Trace("store", tr)
 					}
@@ -202,6 +205,24 @@ func replayStmts(args []string) {
 						RunOpts{Mode: m.mode, AltModes: m.alt, BSize: bs, Cache: true, PollsAfterEnd: sc.After})
 					out.Stats.Evaluations++
 					out.Trace("store", tr)
+					// C12: a storage call of the write fails once (a transient fault); however the plan is polled
+					// afterwards, nothing is written again
+					if c.prop == "C12" && sc.Stmt != nil && (sc.Stmt.Kind == "put" || sc.Stmt.Kind == "remove") {
+						n := 0
+						for _, e := range tr.Events {
+							switch e.Op {
+							case "Get", "Put", "BatchPut", "Delete", "BatchDelete", "Cursor", "Seek", "Next":
+								n++
+							}
+						}
+						for i := 1; i <= n; i++ {
+							ft := runStoreCase(fmt.Sprintf("%s#%s%s%d-f%d", sc.ID, m.mode, m.alt, bs, i), sc.Stmt, sc.Raw, sc.Store,
+								RunOpts{Mode: m.mode, AltModes: m.alt, BSize: bs, Cache: true, FaultAt: i, PollsAfterFail: 3})
+							out.Stats.Evaluations++
+							out.Stats.bump("fault-then-repoll")
+							out.Trace("store", ft)
+						}
+					}
 				}
 			}
 		}
